@@ -1274,7 +1274,6 @@ func (t *Terms) FieldDefAt(at ssa.Instruction, base, field string) ssa.Instructi
 	return nil
 }
 
-
 // Canon is the identity: parameters are already named by index ($0, $1, ...).
 func (t *Terms) Canon(term string) string { return term }
 
